@@ -15,6 +15,14 @@ for d in sorted(glob.glob(f'/verif/seeded/{pid}_*')):
         taken.append(f"  - {m.get('file', '?')} / {m.get('function', '?')}: {m.get('summary', '')[:300]}")
 taken_txt = ("\n\nOther people have ALREADY delivered the following changes for this property; yours must be DIFFERENT (another mechanism, another function or another clause of the property - not a variation of these):\n" + "\n".join(taken)) if taken else ""
 idx = ", ".join(str(i) for i in range(start, start + int(n)))
+style = sys.argv[5] if len(sys.argv) > 5 else ""
+style_txt = ""
+if style == "refactor":
+    style_txt = ("\n  (e) For THIS round, each change must LOOK LIKE A CLEAN-UP: write it as a plausible refactoring of moderate size (roughly 8-40 changed lines) - merging two duplicated branches or tails into one parameterised block, "
+                 "extracting or inlining a helper, introducing a named constant / NamedTuple / dict dispatch, turning a loop into a comprehension / next() / any() or the reverse, replacing indexing by unpacking, restructuring "
+                 "if/elif chains into guard clauses, hoisting or reordering statements, merging or splitting loops - in the course of which the behaviour change of (a) slips in (a statement ends up on the wrong side of a call, a condition "
+                 "loses a case when two branches are merged, a hoisted value goes stale, the merged code serves one of the two original cases wrongly, a default changes, an order of effects changes ...). A reviewer skimming the diff should "
+                 "take it for a behaviour-preserving refactoring.")
 prop = next(json.loads(l) for l in open('/verif/properties.jsonl') if json.loads(l)['id'] == pid)
 print(f"""You are helping to evaluate a verification effort for the Python library pyDCOP (distributed constraint optimisation: algorithms such as DPOP/MGM/MaxSum on a threaded message-passing agent runtime).
 
@@ -31,6 +39,7 @@ YOUR TASK: produce {n} DIFFERENT, independent source changes ("seeded defects") 
       once on the clean tree and once per change, and compare the sets of passed test ids (parse the junit xml with a few lines of python). Other people run the same suite concurrently on this machine and a few tests (tests/unit/test_infra_communication.py HTTP tests, tests/dcop_cli/*) use real TCP ports / subprocesses and can flake: if one of those differs, re-run that test alone before concluding,
   (c) is REALISTIC - the kind of slip a maintainer could make in a refactoring or "small improvement" (an off-by-one, a dropped or weakened guard, a swapped argument, a wrong comparison, a missing copy, a reordered pair of statements, a forgotten field, a changed default, two sites that each look fine alone but disagree...), small (a few lines), not a blatant sabotage, and
   (d) needs SOMETHING SPECIFIC to manifest: a particular interleaving or delivery order, a crash/fault at a particular point, a multi-step sequence of operations, an unusual input (ties, infinities, empty sets, repeated names, max-mode, ...), or two cooperating sites. NOT something ordinary use would expose immediately.
+{style_txt}
 Prefer changes located in the mechanisms the anchors name, but any file of the package is allowed. The {n} changes should touch different mechanisms / clauses of the property.{taken_txt}
 
 For EACH change i (i in {idx}) deliver, in the directory {wt}/_seed/{pid}_<i>/ :
